@@ -32,7 +32,7 @@
 #define C19_SENDLOG 4        /* send() calls whose buffer head is recorded */
 #endif
 #ifndef C19_SENDBYTES
-#define C19_SENDBYTES 160
+#define C19_SENDBYTES 16
 #endif
 
 struct c19_sendrec { int fd; uint32_t len_asked; int32_t ret; uint8_t bytes[C19_SENDBYTES]; };
